@@ -85,6 +85,10 @@ def run(ctx: common.Ctx):
     for sp in (fam if ctx.thorough else fam[::3]):
         tasks.append({"seed": 0, "index": sp["index"], "profile": sp["profile"], "spec": sp,
                       "max_runs": 300, "nrandom": 6, "max_traces": 10})
+    # generated code of the permuted partitions: the first programs of each profile
+    for t in tasks:
+        if "spec" not in t and t["index"] < (60 if ctx.thorough else 8):
+            t["order_codegen"] = True
     try:
         results = distwork.run_pool(distwork.c08_unit, tasks,
                                     deadline_s=3000 if ctx.thorough else 600)
@@ -97,6 +101,7 @@ def run(ctx: common.Ctx):
              "max_options": 0, "max_depth": 0, "budget_exhausted_programs": 0}
     queries, qmeta = [], []
     n_exec_cases = n_exec_dis = n_exec_nontriv = n_prog_comm = 0
+    order_cnt = collections.Counter()
     for t, res in zip(tasks, results):
         if res.get("timeout"):
             raise common.LeanError(f"C08: program {t} timed out inside fakempi")
@@ -144,6 +149,23 @@ def run(ctx: common.Ctx):
             ctx.violation(sig, f"real executor on fakempi: {f['what']} (program seed={t['seed']} "
                           f"index={t['index']} profile={t['profile']}, schedule {f['choices']})",
                           dict(replay_base, choices=f["choices"], what=f["what"]))
+        od = res.get("order")
+        if od:
+            order_cnt.update(od["counters"])
+            order_cnt["programs"] += 1
+            seen_sig = set()
+            for pb in od["problems"]:
+                sig = "order-dependence:" + pb["what"]
+                order_cnt["problems"] += 1
+                if sig in seen_sig:
+                    continue
+                seen_sig.add(sig)
+                ctx.violation(sig, f"the partition of a valid program (seed={t['seed']} index={t['index']} "
+                              f"profile={t['profile']}), rebuilt with the entries of every mapping / set in another "
+                              f"order ({pb['order']}): {pb['what']} — {pb['detail']}; in the order given by "
+                              f"find_distributed_partition everything passes",
+                              dict(replay_base, order=pb["order"], what=pb["what"], detail=pb["detail"],
+                                   choices=pb.get("choices", [])))
         if res["py_clauses"] and not ex["failures"]:
             # C09's business, noted here for the record
             dist["py-clause-failures"] += 1
@@ -187,6 +209,18 @@ def run(ctx: common.Ctx):
                    traces_nontrivial=n_tr_nontriv)
     ctx.note_batch("real-partitions-checkWFexec", n_wf, n_wf_dis, exhaustive=False, nontrivial=n_prog_comm,
                    how="ptdriver runs the verified checker on the union of all ranks' real partitions")
+    ctx.note_batch("partitions-in-permuted-order", order_cnt["permuted_partitions"], order_cnt["problems"],
+                   exhaustive=False, nontrivial=order_cnt["permuted_partitions"], programs=order_cnt["programs"],
+                   executions=order_cnt["executions"], tag_tables=order_cnt["tag_tables"],
+                   codegen_partitions=order_cnt["codegen_partitions"],
+                   how="every valid program with messages and without failing schedule: its real partition is "
+                       "rebuilt with the entries of every mapping / set (parts, name_to_output, name_to_recv_node, "
+                       "name_to_send_nodes + the sends of one name, output_names, needed_pids, user / partition "
+                       "input names) reversed and shuffled (seeded); the real verify must accept, the real "
+                       "number_distributed_tags must give one contiguous injective table agreed by all ranks, the "
+                       "real executor (first-option and one seeded schedule) must give the reference values, and "
+                       "generate_code_for_partition (first programs only) the same kernels, argument order and "
+                       "bound arguments per part")
     ctx.coverage["programs"] = len(tasks)
     ctx.coverage["program_distribution"] = dict(sorted(dist.items()))
     ctx.coverage["topologies"] = dict(sorted(topo.items()))
